@@ -66,6 +66,10 @@ fn main() {
 		}
 		i += 1;
 	}
+	if args.len() >= 4 && args[1] == "C15-child" {
+		props::c15::child(args[2].parse().unwrap_or(0), &args[3]);
+		return;
+	}
 	let seed: u64 = std::env::var("VERIF_SEED").ok().and_then(|s| s.parse::<i64>().ok()).map(|v| v as u64).unwrap_or(20260929);
 	let rsa_fixture = keys::rsa_pkcs8(2048);
 	let ed_key = Arc::new(keys::local_key(&rcgen::PKCS_ED25519, &rsa_fixture));
@@ -73,7 +77,9 @@ fn main() {
 	let result = std::panic::catch_unwind(std::panic::AssertUnwindSafe(|| match prop.as_str() {
 		"C13" => props::c13::run(&mut ctx),
 		"C20" => props::c20::run(&mut ctx),
-		"C01" | "C02" | "C04" | "C05" | "C07" | "C08" | "C09" | "C10" | "C15" => props::suite::run(&mut ctx, &prop),
+		"C01" => props::c01::run(&mut ctx),
+		"C15" => props::c15::run(&mut ctx),
+		"C02" | "C04" | "C05" | "C07" | "C08" | "C09" | "C10" => props::suite::run(&mut ctx, &prop),
 		p => panic!("unknown property {}", p),
 	}));
 	match result {
